@@ -33,6 +33,19 @@ def run(rep, tier_, rng):
     add("zeqb_list (map zfact (ztab 0 %d)) %s" % (N_FAC, zl([LI.ifac(n) for n in range(N_FAC)])), fn="ifac", range=[0, N_FAC])
     add("zeqb_list (map zfact2 (ztab 0 %d)) %s" % (N_FAC, zl([LI.ifac2(n) for n in range(N_FAC)])), fn="ifac2", range=[0, N_FAC])
     add("zeqb_list (map zfib (ztab 0 %d)) %s" % (N_FAC, zl([LI.ifib(n) for n in range(N_FAC)])), fn="ifib", range=[0, N_FAC])
+    # ifib as an algorithm (Dijkstra's logarithmic iteration + cache below 250): the Gallina model of the routine (Algo/Intfun.v,
+    # proved equal to the recurrence for every n and call history) is run inside Coq on the same call sequence as the live code
+    fib_seq = [rng.choice([rng.randint(-300, 300), rng.randint(240, 260), rng.randint(0, 40), rng.randint(1000, 6000 if big else 3000)])
+               for _ in range(60 if big else 30)] + [249, 250, 251, 249, -250, 0, 1, -1, 2]
+    LI.ifib.__defaults__[0].clear()
+    add("zeqb_list (fib_calls [] %s) %s" % (zl(fib_seq), zl([int(LI.ifib(n)) for n in fib_seq])), fn="ifib (model of the algorithm, call history)",
+        range=[min(fib_seq), max(fib_seq)])
+    # ifac2 likewise: the model of the memoised routine (two dictionaries, cache limit) against the live one on one call sequence
+    f2_seq = [rng.choice([rng.randint(0, 60), rng.randint(990, 1012), rng.randint(0, 2200 if big else 1300)]) for _ in range(50 if big else 25)] + [1001, 999, 1000, 1002, 7, 0, 1]
+    d0, d1 = LI.ifac2.__defaults__[0]
+    d0.clear(); d0[0] = 1; d1.clear(); d1[1] = 1
+    add("zeqb_list (fac2_calls %d ([(0, 1)], [(1, 1)]) %s) %s" % (LI.MAX_FACTORIAL_CACHE, zl(f2_seq), zl([int(LI.ifac2(n)) for n in f2_seq])),
+        fn="ifac2 (model of the algorithm, call history)", range=[0, max(f2_seq)])
     nb = 40 if big else 24
     add("zeqb_list (flat_map (fun n => map (fun k => stirling1_ref n k) (ztab 0 %d)) (ztab 0 %d)) %s"
         % (nb, nb, zl([int(LI.stirling1(n, k)) for n in range(nb) for k in range(nb)])), fn="stirling1", range=[0, nb])
